@@ -4,10 +4,9 @@ C14 - invalid input is rejected with an error and leaves the emitter state untou
 Theorems over Model/Emitter.lean (all states, all operations, all histories - no bound), the generated commit-discipline and
 table-bound facts of the current sources, and the link to the monitor of Spec/Emitter.lean.
 
-`bind` is failure atomic since fix C14-13 (`bind_label` validates the pending fixups before it binds): `bind_failure_atomic` holds for
-every state.  What is left of finding C14-K1 is `embed_const_pool` whose label has a pending fixup the bind inside it cannot reach: the
-alignment padding is already appended.  The general theorems carry the hypothesis `bindOverflows s op = false` (exactly that class; it is
-`false` by definition for every call other than `embedConstPool`) and `const_pool_bind_overflow_witness` proves the negation at a witness.
+Finding C14-K1 is closed: `bind_label` validates the pending fixups before it binds (fix C14-13) and `embed_const_pool` validates the
+bind for the aligned offset before `align` writes the padding (fix C14-14).  The theorems below are therefore stated at full strength: no
+hypothesis excludes any call.
 -/
 import AsmjitVerif.Lemmas.C14
 import AsmjitVerif.Spec.Emitter
@@ -19,8 +18,8 @@ open AsmjitVerif.Emitter AsmjitVerif.Gen AsmjitVerif.Offset
 
 /-! ## 1. one call -/
 
-/-- every operation either succeeds or (outside finding C14-K1) leaves the framed state exactly as it was -/
-theorem step_atomic (s : St) (op : Op) (h : bindOverflows s op = false) :
+/-- every operation either succeeds or leaves the framed state exactly as it was -/
+theorem step_atomic (s : St) (op : Op) :
     (step s op).code = Err.ok ∨ (step s op).st.frame = s.frame := by
   cases op with
   | newLabel => exact (newLabel_atomic s).imp (fun h => h) (·.1)
@@ -33,8 +32,7 @@ theorem step_atomic (s : St) (op : Op) (h : bindOverflows s op = false) :
   | embedLabel id sz => exact (embedLabel_atomic s id sz).imp (fun h => h) (·.1)
   | embedLabelDelta id b sz => exact (embedLabelDelta_atomic s id b sz).imp (fun h => h) (·.1)
   | embedConstPool id a d =>
-    have h' : (embedConstPool s id a d).code ≠ Err.invalidDisplacement := by simpa [bindOverflows, step] using h
-    exact (embedConstPool_atomic s id a d h').imp (fun h => h) (·.1)
+    exact (embedConstPool_atomic s id a d).imp (fun h => h) (·.1)
   | newSection n a =>
     rcases newSection_code s n a with h1 | h1
     · exact Or.inl h1
@@ -42,11 +40,11 @@ theorem step_atomic (s : St) (op : Op) (h : bindOverflows s op = false) :
   | «section» i => exact (switchSection_atomic s i).imp (fun h => h) (·.1)
   | emit pre refs o => exact (emit_atomic s pre refs o).imp (fun h => h) (·.1)
 
-/-- **Failure atomicity** (partial: outside the const-pool residue of C14-K1).  A failed call appends no bytes, creates no labels, fixups or relocations,
+/-- **Failure atomicity.**  A failed call appends no bytes, creates no labels, fixups or relocations,
 does not switch sections: apart from the (cleared) one-shot state the whole CodeHolder/emitter state is the one before the call. -/
-theorem failed_call_atomic_partial (s : St) (op : Op) (hfail : (step s op).code ≠ Err.ok) (hk : bindOverflows s op = false) :
+theorem failed_call_atomic (s : St) (op : Op) (hfail : (step s op).code ≠ Err.ok) :
     (step s op).st.frame = s.frame :=
-  (step_atomic s op hk).resolve_left hfail
+  (step_atomic s op).resolve_left hfail
 
 /-- a state in which label 0 cannot be bound: one pending 8-bit fixup (a short jump at offset 0) in a 130 byte section -/
 def witnessState : St :=
@@ -64,12 +62,11 @@ theorem bind_overflow_refused_atomically :
     (step witnessState (.bind 0)).code = Err.invalidDisplacement ∧ (step witnessState (.bind 0)).st = witnessState := by
   decide +kernel
 
-/-- **Witness of what is left of finding C14-K1**: `embed_const_pool` with that label - the bind inside it refuses after the alignment
-padding (130 -> 136 bytes) has been appended. -/
-theorem const_pool_bind_overflow_witness :
+/-- ... and so is `embed_const_pool` with that label: refused before `align` appends the padding (fix C14-14; it used to grow the
+section from 130 to 136 bytes and then fail) -/
+theorem const_pool_overflow_refused_atomically :
     (step witnessState (.embedConstPool 0 8 [1, 2, 3, 4, 5, 6, 7, 8])).code = Err.invalidDisplacement ∧
-    ((step witnessState (.embedConstPool 0 8 [1, 2, 3, 4, 5, 6, 7, 8])).st.secs.map (·.data.length)) = [136] ∧
-    bindOverflows witnessState (.embedConstPool 0 8 [1, 2, 3, 4, 5, 6, 7, 8]) = true := by
+    (step witnessState (.embedConstPool 0 8 [1, 2, 3, 4, 5, 6, 7, 8])).st = witnessState := by
   decide +kernel
 
 /-- **One-shot state**: after every instruction call - accepted or rejected, whatever the encoder did - options, extra register and
@@ -82,7 +79,7 @@ theorem one_shot_cleared_after_emit (s : St) (pre : OneShot) (refs : List Nat) (
 
 /-- **Reporting**: a failed emitter call goes through `report_error` (the handler is invoked once with the returned code), a
 successful call never does; `CodeHolder::new_section` is the only call that returns its error without a handler. -/
-theorem failure_is_reported (s : St) (op : Op) (hk : bindOverflows s op = false) (hns : ∀ n a, op ≠ .newSection n a) :
+theorem failure_is_reported (s : St) (op : Op) (hns : ∀ n a, op ≠ .newSection n a) :
     (step s op).reported = true ↔ (step s op).code ≠ Err.ok := by
   constructor
   · intro hr hc
@@ -109,7 +106,7 @@ theorem failure_is_reported (s : St) (op : Op) (hk : bindOverflows s op = false)
       all_goals simp [done, report, Err.ok, Err.invalidLabel, Err.invalidOperandSize, Err.invalidDisplacement]
     case embedConstPool id a d =>
       revert hr hc; simp only [embedConstPool]; repeat' split
-      all_goals simp_all [done, report, Err.ok, Err.invalidLabel, Err.labelAlreadyBound]
+      all_goals simp_all [done, report, Err.ok, Err.invalidLabel, Err.labelAlreadyBound, Err.invalidDisplacement]
     case newSection n a => exact absurd rfl (hns n a)
     case «section» i =>
       revert hr hc; simp only [switchSection]; repeat' split
@@ -129,8 +126,7 @@ theorem failure_is_reported (s : St) (op : Op) (hk : bindOverflows s op = false)
     | embedLabel id sz => exact ((embedLabel_atomic s id sz).resolve_left hc).2
     | embedLabelDelta id b sz => exact ((embedLabelDelta_atomic s id b sz).resolve_left hc).2
     | embedConstPool id a d =>
-      have h' : (embedConstPool s id a d).code ≠ Err.invalidDisplacement := by simpa [bindOverflows, step] using hk
-      exact ((embedConstPool_atomic s id a d h').resolve_left hc).2
+      exact ((embedConstPool_atomic s id a d).resolve_left hc).2
     | newSection n a => exact absurd rfl (hns n a)
     | «section» i => exact ((switchSection_atomic s i).resolve_left hc).2
     | emit pre refs o => exact ((emit_atomic s pre refs o).resolve_left hc).2
@@ -196,58 +192,55 @@ theorem one_shot_empty_invariant (ops : List Op) (s : St) (h : s.one = OneShot.e
   | cons op ops ih => exact ih _ (step_one_empty s op h)
 
 /-- a failed call between calls: the state is *identical* afterwards (one-shot included) -/
-theorem failed_call_identity (s : St) (op : Op) (h1 : s.one = OneShot.empty) (hk : bindOverflows s op = false)
+theorem failed_call_identity (s : St) (op : Op) (h1 : s.one = OneShot.empty)
     (hfail : (step s op).code ≠ Err.ok) : (step s op).st = s :=
-  frame_eq_of_one_empty h1 (step_one_empty s op h1) (failed_call_atomic_partial s op hfail hk)
+  frame_eq_of_one_empty h1 (step_one_empty s op h1) (failed_call_atomic s op hfail)
 
-/-- **Like a fresh emitter** (partial: outside the const-pool residue of C14-K1).  For every history of calls - valid and invalid interleaved in any way -
+/-- **Like a fresh emitter** .  For every history of calls - valid and invalid interleaved in any way -
 the emitter ends in exactly the state of an emitter that was handed the accepted calls only: failed calls leave no trace
 (bytes, labels, fixups, relocations, current section, one-shot state), so whatever is emitted afterwards is what a fresh emitter
 would produce. -/
-theorem fresh_after_failure_partial (ops : List Op) (s : St) (h1 : s.one = OneShot.empty) (hk : noBindOverflow s ops = true) :
+theorem fresh_after_failure (ops : List Op) (s : St) (h1 : s.one = OneShot.empty) :
     run s ops = run s (accepted s ops) := by
   induction ops generalizing s with
   | nil => rfl
   | cons op ops ih =>
-    simp only [noBindOverflow, Bool.and_eq_true, Bool.not_eq_true'] at hk
     by_cases hc : (step s op).code = Err.ok
     · simp only [run, accepted, hc, if_true]
-      exact ih _ (step_one_empty s op h1) hk.2
-    · have hid : (step s op).st = s := failed_call_identity s op h1 hk.1 hc
+      exact ih _ (step_one_empty s op h1)
+    · have hid : (step s op).st = s := failed_call_identity s op h1 hc
       simp only [run, accepted, hc, if_false]
-      rw [hid] at hk ⊢
-      exact ih s h1 hk.2
+      rw [hid]
+      exact ih s h1
 
 /-- ... and that fresh emitter accepts every one of them -/
-theorem accepted_all_succeed (ops : List Op) (s : St) (h1 : s.one = OneShot.empty) (hk : noBindOverflow s ops = true) :
+theorem accepted_all_succeed (ops : List Op) (s : St) (h1 : s.one = OneShot.empty) :
     ∀ c ∈ codes s (accepted s ops), c = Err.ok := by
   induction ops generalizing s with
   | nil => intro c hc; simp [accepted, codes] at hc
   | cons op ops ih =>
-    simp only [noBindOverflow, Bool.and_eq_true, Bool.not_eq_true'] at hk
     by_cases hc : (step s op).code = Err.ok
     · simp only [accepted, hc, if_true, codes]
       intro c hmem
       rcases List.mem_cons.mp hmem with h | h
       · exact h
-      · exact ih _ (step_one_empty s op h1) hk.2 c h
-    · have hid : (step s op).st = s := failed_call_identity s op h1 hk.1 hc
+      · exact ih _ (step_one_empty s op h1) c h
+    · have hid : (step s op).st = s := failed_call_identity s op h1 hc
       simp only [accepted, hc, if_false]
-      rw [hid] at hk ⊢
-      exact ih s h1 hk.2
+      rw [hid]
+      exact ih s h1
 
 /-- the handler hears exactly the non-zero return codes, in order (no handler attached: nothing; `new_section` excluded) -/
-theorem handler_hears_exactly_the_failures (ops : List Op) (s : St) (hk : noBindOverflow s ops = true)
+theorem handler_hears_exactly_the_failures (ops : List Op) (s : St)
     (hns : ∀ op ∈ ops, ∀ n a, op ≠ .newSection n a) (hh : ∀ op, (step s op).st.handler = s.handler) (hattached : s.handler ≠ .none)
     (hstable : ∀ (t : St) op, (step t op).st.handler = t.handler) :
     handled s ops = (codes s ops).filter (· ≠ Err.ok) := by
   induction ops generalizing s with
   | nil => rfl
   | cons op ops ih =>
-    simp only [noBindOverflow, Bool.and_eq_true, Bool.not_eq_true'] at hk
-    have hrep := failure_is_reported s op hk.1 (hns op (List.mem_cons_self ..))
+    have hrep := failure_is_reported s op (hns op (List.mem_cons_self ..))
     have hhand : (step s op).st.handler ≠ .none := by rw [hstable]; exact hattached
-    have ih' := ih (step s op).st hk.2 (fun o ho => hns o (List.mem_cons_of_mem _ ho)) (fun o => hstable _ o) hhand
+    have ih' := ih (step s op).st (fun o ho => hns o (List.mem_cons_of_mem _ ho)) (fun o => hstable _ o) hhand
     simp only [handled, codes, List.filter_cons]
     by_cases hc : (step s op).code = Err.ok
     · have : (step s op).reported = false := by
@@ -326,10 +319,10 @@ def observe (s shadow : St) (op : Op) : Obs St :=
 
 open AsmjitVerif.EmitterSpec in
 /-- **Model ⊑ spec** for the clauses that do not depend on the encoder: on every state reachable with an empty one-shot state, for
-every call outside C14-K1, the observation of the model step (shadow = the state itself, which by `fresh_after_failure_partial` is
+every call, the observation of the model step (shadow = the state itself, which by `fresh_after_failure` is
 the state of the emitter fed the accepted calls only) satisfies the reporting, atomicity, one-shot, label and freshness clauses of
 the monitor that judges the real code. -/
-theorem model_step_satisfies_monitor (s : St) (op : Op) (h1 : s.one = OneShot.empty) (hk : bindOverflows s op = false) :
+theorem model_step_satisfies_monitor (s : St) (op : Op) (h1 : s.one = OneShot.empty) :
     reportedOnce (observe s s op) = true ∧ failedIsAtomic (observe s s op) = true ∧ oneShotCleared (observe s s op) = true ∧
     labelsExist (observe s s op) = true ∧ likeFresh (observe s s op) = true := by
   have hone := step_one_empty s op h1
@@ -343,7 +336,7 @@ theorem model_step_satisfies_monitor (s : St) (op : Op) (h1 : s.one = OneShot.em
         all_goals rfl
       simp [reportedOnce, observe, kindOf, this]
     · have hns' : ∀ n a, op ≠ .newSection n a := fun n a h => hns ⟨n, a, h⟩
-      have hrep := failure_is_reported s op hk hns'
+      have hrep := failure_is_reported s op hns'
       have hkind : kindOf op ≠ .holderCall := by cases op <;> simp_all [kindOf]
       by_cases hc : (step s op).code = Err.ok
       · have hr : (step s op).reported = false := by
@@ -359,7 +352,7 @@ theorem model_step_satisfies_monitor (s : St) (op : Op) (h1 : s.one = OneShot.em
     by_cases hc : (step s op).code = Err.ok
     · have hc0 : (step s op).code = 0 := hc
       simp [failedIsAtomic, observe, hc0]
-    · have hid := failed_call_identity s op h1 hk hc
+    · have hid := failed_call_identity s op h1 hc
       simp [failedIsAtomic, observe, hid]
   · -- one-shot
     have : (step s op).st.one = OneShot.empty := hone
@@ -382,7 +375,7 @@ theorem model_step_satisfies_monitor (s : St) (op : Op) (h1 : s.one = OneShot.em
   · -- freshness: after = shadow
     by_cases hc : (step s op).code = Err.ok
     · simp [likeFresh, observe, hc]
-    · have hid := failed_call_identity s op h1 hk hc
+    · have hid := failed_call_identity s op h1 hc
       simp [likeFresh, observe, hc, hid]
 
 /-! ## 4. facts about the current sources (regenerated on every run) -/
@@ -428,14 +421,12 @@ def demoOps : List Op := [
 
 example : codes {} demoOps = [0, 0, 26, 12, 12, 2, 12, 0, 0, 14] := by decide +kernel
 example : ((run {} demoOps).secs.map (·.data)) = [[0xEB, 0x01, 0x90]] := by decide +kernel
-example : noBindOverflow {} demoOps = true := by decide +kernel
 example : accepted {} demoOps = [demoOps[0], demoOps[1], demoOps[7], demoOps[8]] := by decide +kernel
-example : run {} demoOps = run {} (accepted {} demoOps) := fresh_after_failure_partial demoOps {} rfl (by decide +kernel)
+example : run {} demoOps = run {} (accepted {} demoOps) := fresh_after_failure demoOps {} rfl
 example : handled {} demoOps = [26, 12, 12, 2, 12, 14] := by decide +kernel
-/-- the hypothesis of the partial theorems is not vacuous the other way either: the witness history is excluded -/
-example : noBindOverflow witnessState [.embedConstPool 0 8 [1, 2, 3, 4, 5, 6, 7, 8]] = false := by decide +kernel
-/-- a history with a refused unreachable bind is *inside* the theorems now -/
-example : noBindOverflow witnessState [.bind 0, .embed [0x90], .bind 0] = true := by decide +kernel
+/-- the formerly excluded histories are inside the theorems now: an unreachable bind and const pool in the middle of valid calls -/
+example : codes witnessState [.bind 0, .embedConstPool 0 8 [1], .embed [0x90], .newLabel] = [48, 48, 0, 0] := by decide +kernel
+example : run witnessState [.bind 0, .embedConstPool 0 8 [1], .embed [0x90]] = run witnessState [.embed [0x90]] := by decide +kernel
 /-- `embed_const_pool`: a bound label is refused before anything is appended; an unbound one aligns, binds and embeds -/
 example : (step { secs := [{ data := [1] }], labels := [{ bound := some (0, 0) }, {}] } (.embedConstPool 0 8 [7, 7])).code = Err.labelAlreadyBound ∧
     ((step { secs := [{ data := [1] }], labels := [{ bound := some (0, 0) }, {}] } (.embedConstPool 1 8 [7, 7])).st.secs.map (·.data.length)) = [10] ∧
